@@ -12,8 +12,8 @@ Judge(c) ==
   ELSE IF \E i \in 1..Len(c.passes) : \E j \in 1..Len(c.passes[i].hits) : ~HitSound(c, c.passes[i].hits[j])
     THEN "a reported hit is outside the sequences, too short, above the error bound, or scores above the optimal alignment of its regions"
   ELSE IF ~NoTrivialSelf(c) THEN "the trivial self match was reported"
-  ELSE IF \E k \in 1..Len(c.plants) : ~Found(c, c.plants[k], HitsOf(c, c.plants[k].rev))
-    THEN "a planted repeat was not recovered: plant " \o ToString(CHOOSE k \in 1..Len(c.plants) : ~Found(c, c.plants[k], HitsOf(c, c.plants[k].rev)))
+  ELSE IF \E k \in 1..Len(c.plants) : ~c.plants[k].marginal /\ ~Found(c, c.plants[k], HitsOf(c, c.plants[k].rev))
+    THEN "a planted repeat was not recovered: plant " \o ToString(CHOOSE k \in 1..Len(c.plants) : ~c.plants[k].marginal /\ ~Found(c, c.plants[k], HitsOf(c, c.plants[k].rev)))
   ELSE ""
 
 Step ==
